@@ -1,0 +1,38 @@
+//! Trace hooks for the external verification harness. The module and every call site are
+//! compiled only with `--cfg goml_verif`; a normal build does not contain them.
+//!
+//! A hook sits at a linearization point of a pass (after the state change it reports) and
+//! appends one JSON object to a thread-local log. Nothing is recorded unless the harness
+//! has called `start()` on the thread that runs the compiler.
+use std::cell::RefCell;
+
+thread_local! {
+    static LOG: RefCell<Option<Vec<String>>> = const { RefCell::new(None) };
+}
+
+/// Install an empty log on this thread.
+pub fn start() {
+    LOG.with(|log| *log.borrow_mut() = Some(Vec::new()));
+}
+
+/// Remove the log of this thread and return its lines.
+pub fn take() -> Vec<String> {
+    LOG.with(|log| log.borrow_mut().take().unwrap_or_default())
+}
+
+pub fn enabled() -> bool {
+    LOG.with(|log| log.borrow().is_some())
+}
+
+/// Record one event; `make` is only evaluated when a log is installed.
+pub fn emit(make: impl FnOnce() -> serde_json::Value) {
+    if !enabled() {
+        return;
+    }
+    let line = make().to_string();
+    LOG.with(|log| {
+        if let Some(lines) = log.borrow_mut().as_mut() {
+            lines.push(line);
+        }
+    });
+}
